@@ -2,6 +2,7 @@
    (trigger + send on the command path, tick path, receive path sharing one driver context) over
    the emulated bus.  Besides the authority events of Auth_io there is
        8 <motion>   on_command while every socket write FAILS (congested / downed interface)
+       9 <motion>   on_command while the bus is stalled for 60 ms and then drains (writes wait, nothing is lost)
    A command is ACCEPTED when on_command is called with it, whether or not its frames left. *)
 From Coq Require Import ZArith List Bool.
 Import ListNotations.
@@ -57,6 +58,9 @@ Fixpoint dec_a01events (fuel : nat) (l : list Z) : option (list a01event) :=
         option_map (cons (A01 (AInject (CanNet.le32 id ++ [dlc; 0; 0; 0; b0; b1; b2; b3; b4; b5; b6; b7])))) (dec_a01events fuel' t)
     | 2 :: t => option_map (cons (A01 ATick)) (dec_a01events fuel' t)
     | 3 :: t => match dec_motion t with
+                | Some (m, r) => option_map (cons (A01 (ACmd (OMotion m)))) (dec_a01events fuel' r)
+                | None => None end
+    | 9 :: t => match dec_motion t with      (* a command while the bus is stalled for a moment: the frames leave once it drains *)
                 | Some (m, r) => option_map (cons (A01 (ACmd (OMotion m)))) (dec_a01events fuel' r)
                 | None => None end
     | 8 :: t => match dec_motion t with
